@@ -23,6 +23,9 @@ def class_source(kind, sig, name):
         fields.append(f"    {FN[j - 1]}: int" + ("" if j <= sig["r"] else f" = {20 + j}"))
     if kind == "dataclass":
         return f"@dataclass\nclass {name}:\n" + "\n".join(fields) + "\n"
+    if kind == "dataclass_kwonly":
+        # a keyword-only field declared first: __init__ takes it after the ordinary ones, fields() lists it first
+        return f"@dataclass\nclass {name}:\n    z: int = field(default=7, kw_only=True)\n" + "\n".join(fields) + "\n"
     if kind == "dataclass_initfalse":
         # a field that is not a constructor parameter comes first: fields(cls) differs from the signature
         return f"@dataclass\nclass {name}:\n    z: int = field(default=7, init=False)\n" + "\n".join(fields) + "\n"
@@ -89,7 +92,7 @@ def run(prop, tier):
     classes = {}
     lines = ["from dataclasses import dataclass, field\nfrom typing import NamedTuple\n\n"]
     for c in cases:
-        nm = f"{ {'dataclass': 'DC', 'namedtuple': 'NT', 'dataclass_initfalse': 'DI'}[c['cls']] }_{c['sig']['n']}_{c['sig']['r']}"
+        nm = f"{ {'dataclass': 'DC', 'namedtuple': 'NT', 'dataclass_initfalse': 'DI', 'dataclass_kwonly': 'DK'}[c['cls']] }_{c['sig']['n']}_{c['sig']['r']}"
         if nm not in classes:
             classes[nm] = True
             lines.append(class_source(c["cls"], c["sig"], nm) + "\n\n")
@@ -113,7 +116,8 @@ def run(prop, tier):
     crecs = []
     for i, c in enumerate(cases):
         rec = {"id": base + i, "pass": "ctor", "sig": c["sig"], "shape": c["shape"], "out": codec.T("absent"),
-               "exc": "", "in": codec.T("absent"), "flags": {"compiles": True, "shape": False}}
+               "exc": "", "in": codec.T("absent"),
+               "flags": {"compiles": True, "shape": False, "zkw": c["cls"] == "dataclass_kwonly"}}
         pos, kws = call_parts(c["shape"])
         try:
             if c["route"] == "direct":
@@ -134,6 +138,7 @@ def run(prop, tier):
     allrecs = vrecs + [{k: r[k] for k in ("id", "pass", "sig", "shape", "out", "exc", "in", "flags")} for r in crecs]
     for r in allrecs:
         r["flags"].setdefault("malformed", False)
+        r["flags"].setdefault("zkw", False)
     verdicts, vst = common.validate(prop, "sugar", "TracePass", allrecs)
     rep.add_tlc(vst)
     rep.traces = len(allrecs)
